@@ -395,6 +395,9 @@ class _Closed:
 
 
 def translations():
+    import os as _os
+    import srcguard as _srcguard
+    _srcguard.guard_from_baseline("specs_density", _os.environ.get("PYDREX_REPO", "/repo"))   # fail closed on new block-size-like integers
     import pydrex.geometry as geo
     import pydrex.stats as stats
 
